@@ -116,6 +116,10 @@ def gen_arg(rng, name: str, ann: str, default):
         return timedelta(hours=1, seconds=5)
     if "tuple" in a and ("size" in lname or "position" in lname):
         return ("1cm", "2cm")
+    if lname == "crange":
+        return rng.choice(["B2:D5", "A1", "C3:C3", "A1:B2"])
+    if lname == "table_name":
+        return rng.choice(["Sheet1", "two words", "FY'.24", "a'.b'.c", "dot.ted", "it's", "x.'y"])
     if lname == "family":
         return rng.choice(["paragraph", "text", "table-cell", "graphic", "section", "table-row"])
     if "element" in a.lower() and "str" in a and rng.random() < 0.5:
@@ -148,6 +152,12 @@ def build_instance(cls, rng):
         elif rng.random() < 0.6:
             cand[name] = gen_arg(rng, name, str(p.annotation), p.default)
     required = {n for n, p in sig.parameters.items() if p.default is p.empty and n in cand}
+    if cls.__name__ == "NamedRange":
+        # (all three are needed together, and the name has its own rules)
+        cand["name"] = rng.choice(["v", "Name_1", "range_a"])
+        cand["crange"] = gen_arg(rng, "crange", "str", None)
+        cand["table_name"] = gen_arg(rng, "table_name", "str", None)
+        required |= {"name", "crange", "table_name"}
     kwargs = dict(cand)
     for _ in range(12):
         try:
@@ -174,7 +184,8 @@ def c14n(xml: str) -> bytes:
 # with another argument (each checked in the source)
 ARG_BY_DESIGN = {("Cell", "currency"), ("Cell", "text"), ("Cell", "value"), ("Cell", "cell_type"), ("Reference", "ref_format"), ("Table", "print_ranges"),
                  ("Table", "protection_key"), ("VarSet", "display"), ("VarSet", "text"), ("Annotation", "parent"), ("Style", "area"),
-                 ("IndexTitle", "title_text_style")}
+                 ("IndexTitle", "title_text_style"),
+                 ("NamedRange", "crange"), ("NamedRange", "usage")}      # (kept as a tuple of numbers; a closed list of usages)
 
 # properties whose value is the position of the element in its tree, by definition
 CONTEXTUAL = {"parent", "root", "document_body", "is_bound", "clone", "children", "tail", "text_recursive", "x", "y", "tracked_changes"}
@@ -291,6 +302,19 @@ def record(cname: str, seed: int) -> dict:
                     got = "exc:" + type(ex).__name__
                 if not (got == v or str(got) == str(v)):
                     seen.append({"arg": k, "given": repr(v)[:60], "read": repr(got)[:60]})
+        # plain attributes of the argument's name (set by the constructor, derived again from the XML on a re-parse)
+        try:
+            again_obj = Element.from_tag(obj.serialize())
+        except Exception:  # noqa: BLE001
+            again_obj = None
+        for k, v in kwargs.items():
+            if k in pnames or not isinstance(v, str) or v in ("", "true", "false") or (cname, k) in ARG_BY_DESIGN or cname == "Style":
+                continue
+            if k in getattr(obj, "__dict__", {}):
+                got = obj.__dict__[k]
+                back = getattr(again_obj, "__dict__", {}).get(k, "<no such attribute>") if again_obj is not None else "<not re-parsed>"
+                if got != v or back != v:
+                    seen.append({"arg": k, "given": repr(v)[:60], "read": repr(got)[:60] + " / re-parsed " + repr(back)[:60]})
         rec["args_read"] = seen
         if rng.random() < 0.3 and cname not in ("Table", "Row", "Column", "Cell", "NamedRange"):
             # mixed content: white space alone between two children is content (XML infoset), whatever the class
